@@ -307,7 +307,8 @@ theorem inv_addBegin {s : State} (h : Inv s) (m : Meta) (o : Opts) (p : Nat) (ge
   | none =>
     dsimp only
     by_cases hfresh : gen ∈ State.regIds { s with free := s.free.erase p } ∨
-        gen ∈ State.pendIds { s with free := s.free.erase p } ∨ gen ∈ State.dbIds { s with free := s.free.erase p }
+        gen ∈ State.pendIds { s with free := s.free.erase p } ∨ gen ∈ State.dbIds { s with free := s.free.erase p } ∨
+        gen ∈ State.deadIds { s with free := s.free.erase p }
     · rw [if_pos hfresh]; exact h
     rw [if_neg hfresh]
     by_cases hsf : sf = true
@@ -656,7 +657,25 @@ theorem Inv.regPort_mem_range {s : State} (h : Inv s) {t : Torrent} (ht : t ∈ 
   apply (h.ports.mem_iff).1
   exact List.mem_append_left _ (List.mem_append_right _ (List.mem_map_of_mem (f := (·.f.port)) ht))
 
-theorem inv_reopen {s : State} (h : Inv s) (resume : Bool) : Inv (reopen s resume) := by
+/-- `Inv` does not speak about the records that did not load. -/
+theorem inv_with_dead {s : State} (h : Inv s) (d : List (String × Fields)) (i : List String) :
+    Inv { s with dead := d, invalid := i } :=
+  ⟨h.ports, h.ids, h.dbsig, h.idx, h.synced, h.pendrec⟩
+
+theorem filter_eq_nil_of_all {α : Type} {l : List α} {p : α → Bool} (h : ∀ a ∈ l, p a = false) : l.filter p = [] := by
+  apply List.filter_eq_nil_iff.2
+  intro a ha; simp [h a ha]
+
+/-- The records a restart loads when every record that failed before fails again: the good ones of `db`. -/
+theorem reopen_good {s : State} (bad : List String) (hb : ∀ e ∈ s.dead, e.1 ∈ bad) :
+    ((updateStats s).db ++ s.dead).filter (fun e => !bad.contains e.1) =
+      (updateStats s).db.filter (fun e => !bad.contains e.1) := by
+  rw [List.filter_append, filter_eq_nil_of_all (l := s.dead), List.append_nil]
+  intro e he
+  simp [hb e he]
+
+theorem inv_reopen {s : State} (h : Inv s) (resume : Bool) (bad : List String) (hb : ∀ e ∈ s.dead, e.1 ∈ bad) :
+    Inv (reopen s resume bad) := by
   unfold reopen
   by_cases hp : s.pending ≠ []
   · rw [if_pos hp]; exact h
@@ -670,16 +689,39 @@ theorem inv_reopen {s : State} (h : Inv s) (resume : Bool) : Inv (reopen s resum
   have hports : ((updateStats s).db.map (·.2.port)).Perm ((updateStats s).reg.map (·.f.port)) := by
     have := hsig.map Prod.snd
     simpa [List.map_map, Function.comp_def] using this
+  dsimp only
+  apply inv_with_dead
+  rw [reopen_good bad hb]
+  have hsub : ((updateStats s).db.filter (fun e => !bad.contains e.1)).Sublist (updateStats s).db := List.filter_sublist
   apply openOn_inv
-  · exact h2.dbIds_nodup
-  · exact (hports.nodup_iff).2 h2.regPorts_nodup
+  · exact (hsub.map _).nodup h2.dbIds_nodup
+  · exact (hsub.map _).nodup ((hports.nodup_iff).2 h2.regPorts_nodup)
   · intro e he
+    have he := hsub.subset he
     have : e.2.port ∈ (updateStats s).reg.map (·.f.port) :=
       (hports.mem_iff).1 (List.mem_map_of_mem (f := (·.2.port)) he)
     obtain ⟨t, ht, hte⟩ := List.mem_map.1 this
     have := h2.regPort_mem_range ht
     rw [hte] at this
     exact this
+
+/-- `CleanDatabase` when no invalid id names a record of a registered torrent or of an add in flight:
+only records that did not load are deleted. -/
+theorem inv_clean {s : State} (h : Inv s) (hf : ∀ id ∈ s.invalid, id ∉ s.dbIds) : Inv (clean s).1 := by
+  unfold clean
+  split
+  · have : s.db.filter (fun e => !s.invalid.contains e.1) = s.db := by
+      apply List.filter_eq_self.2
+      intro e he
+      have : e.1 ∉ s.invalid := fun hc => hf e.1 hc (List.mem_map_of_mem (f := (·.1)) he)
+      simpa using this
+    dsimp only
+    rw [this]
+    exact ⟨h.ports, h.ids, h.dbsig, h.idx, h.synced, h.pendrec⟩
+  · exact h
+
+theorem inv_tamper {s : State} (h : Inv s) (id ih : String) : Inv (tamper s id ih) :=
+  ⟨h.ports, h.ids, h.dbsig, h.idx, h.synced, h.pendrec⟩
 
 theorem compact_some {s : State} {c : List (String × Fields)} (hc : compact s = some c) :
     c = (s.reg.filter (·.f.hasInfo)).map fun t => (t.id, compactRec t ((dbGet s.db t.id).getD t.f)) := by
@@ -714,28 +756,5 @@ theorem inv_compactSwap {s : State} (h : Inv s) (resume : Bool) : Inv (compactSw
       rw [hcs] at he
       obtain ⟨t, ht, rfl⟩ := List.mem_map.1 he
       exact h.regPort_mem_range (List.mem_filter.1 ht).1
-
-theorem inv_step {s : State} (h : Inv s) (op : Op) : Inv (step s op) := by
-  cases op with
-  | add m o p gen e => exact inv_addSeq h m o p gen e
-  | abegin m o p gen sf => exact inv_addBegin h m o p gen sf
-  | abuild q ok => exact inv_addBuild h q ok
-  | awrite q ok => exact inv_addWrite h q ok
-  | ainsert q => exact inv_addInsert h q
-  | remove id => exact inv_remove h id
-  | start id => exact inv_start h id
-  | stop id => exact inv_stop h id
-  | addTracker id uri => exact inv_addTracker h id uri
-  | bump id d => exact inv_bump h id d
-  | updateStats => exact inv_updateStats h
-  | reopen r => exact inv_reopen h r
-  | compactSwap r => exact inv_compactSwap h r
-
-theorem inv_run : ∀ (ops : List Op) {s : State}, Inv s → Inv (run s ops)
-  | [], _, h => h
-  | op :: ops, _, h => by
-    unfold run
-    rw [List.foldl_cons]
-    exact inv_run ops (inv_step h op)
 
 end Rain.Registry
